@@ -272,6 +272,10 @@ func ruleTableSections(c *eng.Ctx) {
 			}
 			for w := range eng.Slice(in.(*ssa.Store).Val, func(*ssa.Call) bool { return true }) {
 				if call, ok := w.(*ssa.Call); ok {
+					// a text extraction applied to the node itself (not an iterator over its children)
+					if bt, isB := call.Type().Underlying().(*types.Basic); !isB || bt.Kind() != types.String {
+						continue
+					}
 					for _, a := range call.Call.Args {
 						if a == self {
 							res = true
